@@ -7,7 +7,9 @@ from .. import core, gallina as G, codec_common as CC, unions as U
 SRCFACTS = ["ints"]
 RULE = ("cases = (schema, datum, disable_tuple_notation, reader options): union-centred schema families (primitive mixes in string "
         "and dict form, numeric mixes with float/double in both orders, 2-4 records with overlapping optional fields, several "
-        "enums/fixed with overlapping symbols/sizes, arrays/maps as branches, records referred to by name from several unions, "
+        "enums/fixed with overlapping symbols/sizes, named types sharing a SHORT name across namespaces (records/enums/fixed, inline and by "
+        "reference, namespaced before and after the null-namespace one; hints spelled with the full name, the bare name, a wrong "
+        "namespace), arrays/maps as branches, records referred to by name from several unions, "
         "hint inside array inside union inside map, recursive types) + random schemas; data: a conforming value for a random branch, "
         "or a dict over a random subset of the record branches' field names (fits several / none), or a number for numeric mixes; "
         "hints: none / (name, value) / '-type' / mixed / named-branches-only, 4 % wrong names; corr:union-index compares the bytes "
@@ -183,7 +185,23 @@ def U_run(ctx, exprs, tag):
 A = {"type": "record", "name": "A", "fields": [{"name": "x", "type": "int"}, {"name": "y", "type": ["null", "int"], "default": None}]}
 B = {"type": "record", "name": "ns.B", "fields": [{"name": "x", "type": "int"}, {"name": "z", "type": ["null", "int"], "default": None},
                                                    {"name": "y", "type": ["null", "int"], "default": None}]}
+EV_A = {"type": "record", "name": "Ev", "namespace": "a", "fields": [{"name": "id", "type": "int"}]}
+EV_0 = {"type": "record", "name": "Ev", "namespace": "", "fields": [{"name": "id", "type": "int"}]}
+EN_A = {"type": "enum", "name": "a.En", "symbols": ["A", "B"]}
+EN_0 = {"type": "enum", "name": "En", "symbols": ["A", "B"]}
 WITNESSES = [
+    # same short name in two namespaces: a hint is matched against the FULL name
+    ([EV_A, EV_0], ("Ev", {"id": 5}), 1, "short-name tuple hint selects the null-namespace record (namespaced one listed first)"),
+    ([EV_0, EV_A], ("Ev", {"id": 5}), 0, "short-name tuple hint selects the null-namespace record (listed first)"),
+    ([EV_0, EV_A], ("a.Ev", {"id": 5}), 1, "full-name tuple hint selects the namespaced record"),
+    ([EV_A, "null"], ("Ev", {"id": 5}), None, "short-name tuple hint with only a namespaced record is an error"),
+    ([EV_A, EV_0], ("b.Ev", {"id": 5}), None, "tuple hint with a wrong namespace is an error"),
+    ([EV_A, EV_0], {"id": 5, "-type": "Ev"}, 1, "short-name -type hint selects the null-namespace record"),
+    ([EV_A, EV_0], {"id": 5, "-type": "a.Ev"}, 0, "full-name -type hint selects the namespaced record"),
+    ([EV_A, "null"], {"id": 5, "-type": "Ev"}, None, "short-name -type hint with only a namespaced record is an error"),
+    ([EN_A, EN_0, "string"], ("En", "A"), 1, "short-name tuple hint selects the null-namespace enum"),
+    ([{"type": "fixed", "name": "b.c.Fx", "size": 2}, {"type": "fixed", "name": "Fx", "size": 2}], ("Fx", b"ab"), 1,
+     "short-name tuple hint selects the null-namespace fixed"),
     ([A, B, "float", "string", {"type": "double"}], {"x": 1}, 0, "tie: first record"),
     ([A, B, "float", "string", {"type": "double"}], {"x": 1, "z": 2}, 1, "most fields"),
     ([A, B, "float", "string", {"type": "double"}], {"x": 1, "-type": "ns.B"}, 1, "-type hint"),
